@@ -11,6 +11,10 @@ EVIDENCE_DIR = os.environ.get("NSA_EVIDENCE_DIR") or os.path.join(VERIF, "eviden
 REPLAY_DIR = os.environ.get("NSA_REPLAY_DIR") or os.path.join(VERIF, "replay")
 
 
+# one extraction per profile and process (a single `./check` invocation analyses one snapshot of the tree)
+_PROCESS_CACHE = {}
+
+
 class Ctx:
     """collects the obligations of one property check"""
 
@@ -31,11 +35,13 @@ class Ctx:
     # -- programs
     def prog(self, profile="dev"):
         if profile not in self._progs:
-            facts = extract(profile)
-            self._progs[profile] = Program(facts)
-            self.configs.append({"profile": profile, "bodies": len(facts["bodies"]),
-                                 "tree_hash": facts["_meta"]["tree_hash"][:16],
-                                 "extract_s": facts["_meta"]["extract_s"]})
+            if profile not in _PROCESS_CACHE:
+                facts = extract(profile)
+                _PROCESS_CACHE[profile] = (Program(facts), facts["_meta"], len(facts["bodies"]))
+            prog, meta, nb = _PROCESS_CACHE[profile]
+            self._progs[profile] = prog
+            self.configs.append({"profile": profile, "bodies": nb, "tree_hash": meta["tree_hash"][:16],
+                                 "extract_s": meta["extract_s"]})
         return self._progs[profile]
 
     # -- obligations
